@@ -400,7 +400,10 @@ func Lock(l sync.Locker, site int) {
 	t.vc.join(st.relW)
 	t.vc.join(st.relR)
 	s.mu.Unlock()
-	l.Lock()
+	// The real mutex is not taken under simulation: ownership is tracked here
+	// and exactly one task runs at a time. (A real lock left held by a task that
+	// panicked would otherwise leak into later runs when the mutex is a
+	// package-level object.)
 }
 
 func Unlock(l sync.Locker) {
@@ -414,9 +417,12 @@ func Unlock(l sync.Locker) {
 		l.Unlock()
 		return
 	}
-	l.Unlock()
 	s.mu.Lock()
 	st := s.ls(l)
+	if st.owner != t {
+		s.mu.Unlock()
+		panic(fmt.Sprintf("sync: unlock of mutex not held by task %s (unlock of unlocked mutex)", t.Name))
+	}
 	st.owner = nil
 	t.held--
 	st.relW = st.relW.joined(t.vc)
@@ -455,7 +461,6 @@ func RLock(l *sync.RWMutex, site int) {
 	t.held++
 	t.vc.join(st.relW)
 	s.mu.Unlock()
-	l.RLock()
 }
 
 func RUnlock(l *sync.RWMutex) {
@@ -469,9 +474,12 @@ func RUnlock(l *sync.RWMutex) {
 		l.RUnlock()
 		return
 	}
-	l.RUnlock()
 	s.mu.Lock()
 	st := s.ls(sync.Locker(l))
+	if st.readers[t] <= 0 {
+		s.mu.Unlock()
+		panic(fmt.Sprintf("sync: RUnlock of RWMutex not read-locked by task %s", t.Name))
+	}
 	st.readers[t]--
 	if st.readers[t] == 0 {
 		delete(st.readers, t)
@@ -511,7 +519,6 @@ func CondWait(c *sync.Cond, site int) {
 	t.vc.join(st.relW)
 	t.vc.join(st.relR)
 	s.mu.Unlock()
-	c.L.Lock()
 }
 
 func CondWake(c *sync.Cond, all bool) {
